@@ -7,32 +7,34 @@ package testing
 //@ // combined component may do to the handle it is given. It may call the Fail family (sets failed, or
 //@ // teardownFailed while tearing down; never clears either), register cleanups (append only), panic
 //@ // with any value, or return. It touches nothing else of T.
-//@ ghost var marked bool
+//@ ghost var Gmarks int
 //@
 //@ fnspec userIter(t *T)
 //@   maypanic
-//@   modifies t.failed, t.teardownFailed, t.teardownStack, marked
+//@   modifies t.failed, t.teardownFailed, t.teardownStack, Gmarks
 //@   ensures old(t.failed) ==> t.failed
 //@   ensures old(t.teardownFailed) ==> t.teardownFailed
-//@   ensures old(marked) ==> marked
-//@   ensures (t.failed && !old(t.failed)) ==> (marked && !t.tearingDown)
+//@   ensures Gmarks >= old(Gmarks)
+//@   ensures (t.failed && !old(t.failed)) ==> (Gmarks > old(Gmarks) && !t.tearingDown)
+//@   ensures Gmarks > old(Gmarks) ==> (t.tearingDown ? t.teardownFailed : t.failed)
 //@   ensures (t.teardownFailed && !old(t.teardownFailed)) ==> t.tearingDown
-//@   ensures len(t.teardownStack) >= old(len(t.teardownStack))
+//@   ensures len(t.teardownStack) >= old(len(t.teardownStack)) && !isnil(t.teardownStack)
 //@   ensures forall j int :: 0 <= j && j < old(len(t.teardownStack)) ==> t.teardownStack[j] == old(t.teardownStack[j])
 //@   ensures forall j int :: 0 <= j && j < len(t.teardownStack) ==> t.teardownStack[j] != nil
 //@   onpanic old(t.failed) ==> t.failed
 //@   onpanic old(t.teardownFailed) ==> t.teardownFailed
-//@   onpanic old(marked) ==> marked
-//@   onpanic (t.failed && !old(t.failed)) ==> (marked && !t.tearingDown)
+//@   onpanic Gmarks >= old(Gmarks)
+//@   onpanic (t.failed && !old(t.failed)) ==> (Gmarks > old(Gmarks) && !t.tearingDown)
+//@   onpanic Gmarks > old(Gmarks) ==> (t.tearingDown ? t.teardownFailed : t.failed)
 //@   onpanic (t.teardownFailed && !old(t.teardownFailed)) ==> t.tearingDown
-//@   onpanic len(t.teardownStack) >= old(len(t.teardownStack))
+//@   onpanic len(t.teardownStack) >= old(len(t.teardownStack)) && !isnil(t.teardownStack)
 //@   onpanic forall j int :: 0 <= j && j < old(len(t.teardownStack)) ==> t.teardownStack[j] == old(t.teardownStack[j])
 //@   onpanic forall j int :: 0 <= j && j < len(t.teardownStack) ==> t.teardownStack[j] != nil
 //@   onpanic errorsIs(panicValue, errFailNow) ==> (t.tearingDown ? t.teardownFailed : t.failed)
 //@
 //@ fnspec userSetup(t *T) (r RunFn)
 //@   maypanic
-//@   modifies t.failed, t.teardownFailed, t.teardownStack, marked
+//@   modifies t.failed, t.teardownFailed, t.teardownStack, Gmarks
 //@   ensures r != nil
 //@   ensures old(t.failed) ==> t.failed
 //@   ensures old(t.teardownFailed) ==> t.teardownFailed
@@ -52,18 +54,18 @@ package testing
 //@ // ---- C07: failure API
 //@ func (*T).Fail
 //@   props C07 C06
-//@   modifies t.failed, t.teardownFailed, marked
-//@   ghost at exit : marked = true
+//@   modifies t.failed, t.teardownFailed, Gmarks
+//@   ghost at exit : Gmarks = Gmarks + 1
 //@   ensures [flag] t.tearingDown ? (t.teardownFailed && t.failed == old(t.failed)) : (t.failed && t.teardownFailed == old(t.teardownFailed))
-//@   ensures [marked] marked
+//@   ensures [marked] Gmarks == old(Gmarks) + 1
 //@
 //@ func (*T).FailNow
 //@   props C07 C06
 //@   panics
-//@   modifies t.failed, t.teardownFailed, marked
-//@   ghost before call (*Bool).Store : marked = true
+//@   modifies t.failed, t.teardownFailed, Gmarks
+//@   ghost before call (*Bool).Store : Gmarks = Gmarks + 1
 //@   onpanic [flag] t.tearingDown ? (t.teardownFailed && t.failed == old(t.failed)) : (t.failed && t.teardownFailed == old(t.teardownFailed))
-//@   onpanic [sentinel] panicValue == errFailNow && marked
+//@   onpanic [sentinel] panicValue == errFailNow && Gmarks > old(Gmarks)
 //@
 //@ func (*T).Failed
 //@   props C07 C06 C16 C17
@@ -90,31 +92,31 @@ package testing
 //@
 //@ func (*T).Errorf
 //@   props C07
-//@   modifies t.failed, t.teardownFailed, marked
+//@   modifies t.failed, t.teardownFailed, Gmarks
 //@   ensures t.tearingDown ? (t.teardownFailed && t.failed == old(t.failed)) : (t.failed && t.teardownFailed == old(t.teardownFailed))
-//@   ensures marked
+//@   ensures Gmarks > old(Gmarks)
 //@
 //@ func (*T).Error
 //@   props C07
 //@   requires err != nil
-//@   modifies t.failed, t.teardownFailed, marked
+//@   modifies t.failed, t.teardownFailed, Gmarks
 //@   ensures t.tearingDown ? (t.teardownFailed && t.failed == old(t.failed)) : (t.failed && t.teardownFailed == old(t.teardownFailed))
-//@   ensures marked
+//@   ensures Gmarks > old(Gmarks)
 //@
 //@ func (*T).Fatalf
 //@   props C07
 //@   panics
-//@   modifies t.failed, t.teardownFailed, marked
+//@   modifies t.failed, t.teardownFailed, Gmarks
 //@   onpanic t.tearingDown ? (t.teardownFailed && t.failed == old(t.failed)) : (t.failed && t.teardownFailed == old(t.teardownFailed))
-//@   onpanic panicValue == errFailNow && marked
+//@   onpanic panicValue == errFailNow && Gmarks > old(Gmarks)
 //@
 //@ func (*T).Fatal
 //@   props C07
 //@   requires err != nil
 //@   panics
-//@   modifies t.failed, t.teardownFailed, marked
+//@   modifies t.failed, t.teardownFailed, Gmarks
 //@   onpanic t.tearingDown ? (t.teardownFailed && t.failed == old(t.failed)) : (t.failed && t.teardownFailed == old(t.teardownFailed))
-//@   onpanic panicValue == errFailNow && marked
+//@   onpanic panicValue == errFailNow && Gmarks > old(Gmarks)
 //@
 //@ // ---- C07/C06: recovery. handlePanic classifies a recovered value: nil = no panic, the FailNow sentinel =
 //@ // already marked by FailNow, anything else = mark failed now.
@@ -122,11 +124,12 @@ package testing
 //@   props C07 C06
 //@   requires t != nil
 //@   requires errorsIs(recovered, errFailNow) ==> (t.tearingDown ? t.teardownFailed : t.failed)
-//@   modifies t.failed, t.teardownFailed, marked
+//@   modifies t.failed, t.teardownFailed, Gmarks
 //@   ensures [nopanic-noop] recovered == nil ==> t.failed == old(t.failed) && t.teardownFailed == old(t.teardownFailed)
 //@   ensures [panic-fails] recovered != nil ==> (t.tearingDown ? t.teardownFailed : t.failed)
 //@   ensures [monotone] (old(t.failed) ==> t.failed) && (old(t.teardownFailed) ==> t.teardownFailed)
 //@   ensures [other-flag] t.tearingDown ? t.failed == old(t.failed) : t.teardownFailed == old(t.teardownFailed)
+//@   ensures [marks] Gmarks >= old(Gmarks) && (recovered == nil ==> Gmarks == old(Gmarks)) && (Gmarks > old(Gmarks) ==> (t.tearingDown ? t.teardownFailed : t.failed))
 //@
 //@ func CheckResults
 //@   props C07 C06
@@ -134,11 +137,12 @@ package testing
 //@   unreachable 1
 //@   requires t != nil && done == nil
 //@   requires errorsIs(recovered, errFailNow) ==> (t.tearingDown ? t.teardownFailed : t.failed)
-//@   modifies t.failed, t.teardownFailed, marked
+//@   modifies t.failed, t.teardownFailed, Gmarks
 //@   ensures [nopanic-noop] recovered == nil ==> t.failed == old(t.failed) && t.teardownFailed == old(t.teardownFailed)
 //@   ensures [panic-fails] recovered != nil ==> (t.tearingDown ? t.teardownFailed : t.failed)
 //@   ensures [monotone] (old(t.failed) ==> t.failed) && (old(t.teardownFailed) ==> t.teardownFailed)
 //@   ensures [other-flag] t.tearingDown ? t.failed == old(t.failed) : t.teardownFailed == old(t.teardownFailed)
+//@   ensures [marks] Gmarks >= old(Gmarks) && (recovered == nil ==> Gmarks == old(Gmarks)) && (Gmarks > old(Gmarks) ==> (t.tearingDown ? t.teardownFailed : t.failed))
 //@
 //@ // ---- C06: cleanups run exactly once, in reverse registration order, each individually recovered
 //@ ghost var Gcalled map[int]int
@@ -146,17 +150,19 @@ package testing
 //@
 //@ fnspec userCleanup(t *T)
 //@   maypanic
-//@   modifies t.failed, t.teardownFailed, t.teardownStack, marked
+//@   modifies t.failed, t.teardownFailed, t.teardownStack, Gmarks
 //@   ensures old(t.failed) ==> t.failed
 //@   ensures old(t.teardownFailed) ==> t.teardownFailed
-//@   ensures (t.failed && !old(t.failed)) ==> (marked && !t.tearingDown)
+//@   ensures (t.failed && !old(t.failed)) ==> (Gmarks > old(Gmarks) && !t.tearingDown)
+//@   ensures Gmarks > old(Gmarks) ==> (t.tearingDown ? t.teardownFailed : t.failed)
 //@   ensures (t.teardownFailed && !old(t.teardownFailed)) ==> t.tearingDown
 //@   ensures len(t.teardownStack) >= old(len(t.teardownStack)) && !isnil(t.teardownStack)
 //@   ensures forall j int :: 0 <= j && j < old(len(t.teardownStack)) ==> t.teardownStack[j] == old(t.teardownStack[j])
 //@   ensures forall j int :: 0 <= j && j < len(t.teardownStack) ==> t.teardownStack[j] != nil
 //@   onpanic old(t.failed) ==> t.failed
 //@   onpanic old(t.teardownFailed) ==> t.teardownFailed
-//@   onpanic (t.failed && !old(t.failed)) ==> (marked && !t.tearingDown)
+//@   onpanic (t.failed && !old(t.failed)) ==> (Gmarks > old(Gmarks) && !t.tearingDown)
+//@   onpanic Gmarks > old(Gmarks) ==> (t.tearingDown ? t.teardownFailed : t.failed)
 //@   onpanic (t.teardownFailed && !old(t.teardownFailed)) ==> t.tearingDown
 //@   onpanic len(t.teardownStack) >= old(len(t.teardownStack)) && !isnil(t.teardownStack)
 //@   onpanic forall j int :: 0 <= j && j < old(len(t.teardownStack)) ==> t.teardownStack[j] == old(t.teardownStack[j])
@@ -169,7 +175,7 @@ package testing
 //@   requires GlastCalled == i + 1
 //@   dyncall teardownStack : userCleanup(t)
 //@   ghost before call dyn:teardownStack : Gcalled[i] = Gcalled[i] + 1 ; GlastCalled = i
-//@   modifies t.failed, t.teardownFailed, t.teardownStack, marked, Gcalled, GlastCalled
+//@   modifies t.failed, t.teardownFailed, t.teardownStack, Gmarks, Gcalled, GlastCalled
 //@   ensures [once] Gcalled[i] == old(Gcalled[i]) + 1 && GlastCalled == i
 //@   ensures [others] forall j int :: j != i ==> Gcalled[j] == old(Gcalled[j])
 //@   ensures [stack] len(t.teardownStack) >= old(len(t.teardownStack))
@@ -181,7 +187,7 @@ package testing
 //@   props C06
 //@   requires wfT(t)
 //@   ghost at entry : GlastCalled = len(t.teardownStack)
-//@   modifies t.tearingDown, t.failed, t.teardownFailed, t.teardownStack, marked, Gcalled, GlastCalled
+//@   modifies t.tearingDown, t.failed, t.teardownFailed, t.teardownStack, Gmarks, Gcalled, GlastCalled
 //@   loop 0 invariant -1 <= i && i < old(len(t.teardownStack)) && GlastCalled == i + 1 && wfT(t) && t.tearingDown
 //@   loop 0 invariant len(t.teardownStack) >= old(len(t.teardownStack))
 //@   loop 0 invariant forall j int :: 0 <= j && j < old(len(t.teardownStack)) ==> t.teardownStack[j] == old(t.teardownStack[j])
